@@ -161,6 +161,7 @@ class Ref:
         self.master = None
         self.vars = {}
         self._version, self._cached = 0, None
+        self.hidden = set()  # sections deleted from the flattened view (del cfg[name] / clear()) until the next rebuild
 
     def resolve(self, section, key):
         for p in self.profiles:
@@ -174,7 +175,7 @@ class Ref:
 
     def view(self):
         """sections → keys → entry, every (section, key) defined by a listed profile (read-only for the callers)"""
-        key = (self._version, tuple(self.profiles))
+        key = (self._version, tuple(self.profiles), frozenset(self.hidden))
         if self._cached is not None and self._cached[0] == key:
             return self._cached[1]
         out = {}
@@ -185,6 +186,8 @@ class Ref:
         for s in out:
             for k in out[s]:
                 out[s][k] = self.resolve(s, k)
+        for s in self.hidden:
+            out.pop(s, None)
         self._cached = (key, out)
         return out
 
@@ -311,6 +314,16 @@ def run_op(w: World, op: dict):
             w.cfg[0].fallback_config = w.cfg[1] if op["on"] else None
             w.linked = bool(op["on"])
             return tok, "ok"
+        if t == "X":
+            tok = f"X:{i}:{hexs(op['name'])}"
+            del cfg[op["name"]]
+            return tok, "ok"
+        if t == "C":
+            tok = f"C:{i}"
+            cfg.clear()
+            return tok, "ok"
+        if t == "Y":
+            return run_alias(cfg, i, op)
         if t == "K":
             tok = f"K:{1 if op['on'] else 0}"
             w.cfg[1].fallback_config = w.cfg[2] if op["on"] else None
@@ -473,6 +486,78 @@ def run_typed(op, ConfigurationEntry):
     raise AssertionError(kind)
 
 
+def edit_list(lst, edit):
+    """change a list in place, as a caller would"""
+    how = edit[0]
+    if how == "insert0":
+        lst.insert(0, edit[1])
+    elif how == "append":
+        lst.append(edit[1])
+    elif how == "reverse":
+        lst.reverse()
+    elif how == "remove_first":
+        if lst:
+            del lst[0]
+    elif how == "clear":
+        lst.clear()
+    elif how == "iadd":
+        lst += [edit[1]]
+    elif how == "noop":
+        pass  # the selection is assigned again as it is (the view is rebuilt: sections deleted from it are back)
+    return lst
+
+
+def ptoken(i, v):
+    return f"P:{i}:" + ("-" if v is None else "[]" if not v else ",".join("~" if p is None else hexs(p) for p in v))
+
+
+def run_alias(cfg, i, op):
+    """the caller changes, in place, an object a getter handed out (op Y).  (a) `profiles_assign`: … and assigns it back
+    through the setter: the configuration follows the new list; everything else: not assigned back, nothing may change"""
+    kind = op["kind"]
+    if kind == "profiles_assign":
+        want = edit_list(list(cfg.profiles), op["edit"])
+        op["_assigned"] = list(want)
+        tok = ptoken(i, want)
+        if op["edit"][0] == "iadd":
+            cfg.profiles += [op["edit"][1]]
+        else:
+            p = cfg.profiles
+            edit_list(p, op["edit"])
+            cfg.profiles = p
+        return tok, "ok"
+    if kind == "profiles_keep":  # the list the getter handed out, changed and dropped
+        edit_list(cfg.profiles, op["edit"])
+        return "N", "ok"
+    if kind == "profiles_given":  # the caller keeps, and later changes, the list it assigned
+        lst = list(op["profiles"])
+        tok = ptoken(i, op["profiles"])
+        cfg.profiles = lst
+        edit_list(lst, op["edit"])
+        return tok, "ok"
+    if kind == "sections":
+        l = cfg.sections
+        edit_list(l, ["clear"])
+    elif kind == "section_names":
+        edit_list(cfg.section_names, ["append", "zz"])
+    elif kind == "sources":
+        cfg.sources.add("bogus source")
+    elif kind == "as_dict":
+        d = cfg.as_dict()
+        for v in d.values():
+            v.clear()
+        d["zz"] = {"k1": "x"}
+    elif kind == "entry_values":
+        for sec in cfg.sections:
+            for e in list(sec.values()):
+                e.list.append("x")
+                e.dict["k"] = "v"
+                _ = e.tuple + ("y",)
+    else:
+        raise AssertionError(kind)
+    return "N", "ok"
+
+
 def look(w: World, i: int, e, op: dict):
     """what is seen on an entry a lookup handed back: key, .str, .source, the configuration whose variable dictionary it
     holds (position in the fallback chain of the configuration asked), .replaced, .replace(default=…, **callvars), and
@@ -531,7 +616,27 @@ def ref_apply(w: World, op: dict, obs: str, rep, step):
             return
         src = op["source"] if op.get("profile") is None else f"{op['source']} ({op['profile']})"
         ref.put(op.get("profile"), op["sec"], op["key"], op["val"], src, op.get("meta"))
+        ref.hidden.clear()  # every successful update rebuilds the flattened view
         expect("ok", "update")
+    elif t == "X":
+        if op["name"] in view_before:
+            ref.hidden.add(op["name"])
+            expect("ok", "del-section")
+        else:
+            expect("err:key", "del-section-missing")
+    elif t == "C":
+        ref.hidden |= set(view_before)
+        ref.vars.clear()
+        expect("ok", "clear")
+    elif t == "Y":
+        expect("ok", "in-place-change:" + op["kind"])
+        if op["kind"] in ("profiles_assign", "profiles_given"):
+            v = op["_assigned"] if op["kind"] == "profiles_assign" else list(op["profiles"])
+            vs = [None] if not v else list(v)
+            if vs[-1] is not None:
+                vs.append(None)
+            ref.profiles = vs
+            ref.hidden.clear()
     elif t in ("D", "S", "F", "O"):
         ups = []
         if t == "D":
@@ -567,6 +672,8 @@ def ref_apply(w: World, op: dict, obs: str, rep, step):
                 ups.append((sec or "<master>", key, v, op.get("profile"), f"command line ({opt})", None, opt))
         failed = None
         used = set()
+        hidden_before = set(ref.hidden)
+        ref.hidden.clear()  # the loop ends with a rebuild of the flattened view, also when an entry is refused
         for sec, k, v, p, src, meta, tag in ups:
             if sec == "<master>":
                 if ref.master is None or ref.master not in view_before:
@@ -598,6 +705,7 @@ def ref_apply(w: World, op: dict, obs: str, rep, step):
         if vs[-1] is not None:
             vs.append(None)
         ref.profiles = vs
+        ref.hidden.clear()
     elif t == "M":
         ref.master = op["master"]
     elif t in ("L", "K"):
@@ -1131,7 +1239,7 @@ class Reporter:
                 self.ctx.count("disagreements")
 
 
-MUTATING = set("UDOSFPMLKV")
+MUTATING = set("UDOSFPMLKVXCY")
 
 
 def run_history(ctx, drv, hist, tmp):
@@ -1163,7 +1271,7 @@ def run_history(ctx, drv, hist, tmp):
         elif op["op"] in MUTATING:
             nhits = len(rep.hits)
             ref_apply(w, op, obs, rep, step)
-            if len(rep.hits) == nhits and op["op"] in "UDOSFP":
+            if len(rep.hits) == nhits and op["op"] in "UDOSFPXCY":
                 # the flattened view must follow every update / profile change at once
                 i = op.get("cfg", 0)
                 got = parse_view(show_view(w.cfg[i], True), with_source=True)
@@ -1489,12 +1597,65 @@ def gen_mut(rng):
         return {"op": "P", "cfg": i, "profiles": v}
     if k < 0.93:
         return {"op": "M", "cfg": i, "master": rng.choice([None, "s1", "s2", "zz"])}
+    if k < 0.935:
+        return gen_alias(rng, i)
+    if k < 0.94:
+        return {"op": "X", "cfg": i, "name": rng.choice(SECTIONS + ["zz"])} if rng.random() < 0.8 else {"op": "C", "cfg": i}
     if k < 0.955:
         return {"op": "L", "on": rng.random() < 0.8}
     if k < 0.97:
         return {"op": "K", "on": rng.random() < 0.8}
     i = rng.choice([0, 0, 1, 2])
     return {"op": "V", "cfg": i, "vars": gen_vars(rng, i)}
+
+
+ALIAS_KINDS = ["profiles_assign", "profiles_assign", "profiles_keep", "profiles_given", "sections", "section_names", "sources", "as_dict",
+               "entry_values"]
+
+
+def gen_alias(rng, i, kind=None):
+    """the caller changes in place what a getter handed out (and, for profiles_assign, assigns it back)"""
+    kind = kind or rng.choice(ALIAS_KINDS)
+    p = rng.choice(PROFILES)
+    edit = rng.choice([["insert0", p], ["insert0", p], ["append", p], ["reverse"], ["remove_first"], ["clear"], ["iadd", p], ["noop"]])
+    if kind != "profiles_assign" and edit[0] == "iadd":
+        edit = ["insert0", p]
+    op = {"op": "Y", "cfg": i, "kind": kind, "edit": edit}
+    if kind == "profiles_given":
+        op["profiles"] = rng.sample(PROFILES, rng.randint(1, 2))
+    return op
+
+
+def gen_alias_history(rng):
+    """(e) objects handed out by getters, changed in place: a configuration with entries in several profiles, a profile
+    selection, then in-place changes of every kind - assigned back (the configuration follows) or not (nothing changes) -,
+    deleted sections / clear(), each followed by observations and by an unrelated update that rebuilds the view"""
+    i = rng.choice([0, 0, 1])
+    hist = []
+    for _ in range(rng.randint(2, 5)):
+        hist.append({"op": "U", "cfg": i, "sec": rng.choice(SECTIONS), "key": rng.choice(KEYS), "val": "v%d" % rng.randint(0, 99),
+                     "profile": rng.choice([None] + PROFILES), "source": "code", "allow_new": True, "meta": None})
+    if rng.random() < 0.7:
+        hist.append({"op": "P", "cfg": i, "profiles": rng.sample(PROFILES, rng.randint(1, 2))})
+    for _ in range(rng.randint(1, 4)):
+        r = rng.random()
+        if r < 0.75:
+            hist.append(gen_alias(rng, i))
+        elif r < 0.92:
+            hist.append({"op": "X", "cfg": i, "name": rng.choice(SECTIONS + ["zz"])})
+        else:
+            hist.append({"op": "C", "cfg": i})
+        hist += battery(rng, i)
+        if r >= 0.75 and rng.random() < 0.5:
+            hist.append({"op": "Y", "cfg": i, "kind": "profiles_assign", "edit": ["noop"]})  # the same selection again
+            hist += battery(rng, i)
+        if rng.random() < 0.6:
+            hist.append(rng.choice([
+                {"op": "U", "cfg": i, "sec": "s2", "key": "k3", "val": "unrelated", "profile": None, "source": "code", "allow_new": True, "meta": None},
+                {"op": "P", "cfg": i, "profiles": None if rng.random() < 0.3 else rng.sample(PROFILES, 1)},
+                {"op": "D", "cfg": i, "sec": "s1", "allow_new": True, "dict": {"k2": "d"}}]))
+            hist += battery(rng, i)
+    return hist
 
 
 def gen_history(rng, n):
@@ -1919,6 +2080,16 @@ def run(ctx: Ctx):
             ctx.case({"digest": common.digest(hist), "vars": len(hist)},
                      nontrivial=any(op["op"] in "LK" and op.get("on") for op in hist))
             ctx.count("vars-along-chain")
+            run_history(ctx, drv, hist, tmp)
+            ctx.traces += 1
+        # (e) objects handed out by getters, changed in place; deleted sections
+        for _ in range(ctx.budget(150, 3000)):
+            hist = gen_alias_history(rng)
+            ctx.case({"digest": common.digest(hist), "alias": [op.get("kind", op["op"]) for op in hist if op["op"] in "YXC"]})
+            ctx.count("in-place-changes")
+            for op in hist:
+                if op["op"] in "YXC":
+                    ctx.count("alias:" + op.get("kind", {"X": "del-section", "C": "clear"}.get(op["op"])))
             run_history(ctx, drv, hist, tmp)
             ctx.traces += 1
         # (c) accessors and replace
